@@ -511,6 +511,41 @@ class LemmaCase(Case):
         lin = ys[i] + (x - ks[i]) * (ys[i + 1] - ys[i]) * E.inv(ks[i + 1] - ks[i])
         cl.append(('linear-on-segment[%d]' % i, ((x >= ks[i]) & (x <= ks[i + 1])).implies(f.eq(lin))))
         cl.append(('passes-through-keypoint[%d]' % i, x.eq(ks[i]).implies(f.eq(ys[i]))))
+    elif kind == 'hat-form-monotone':
+      # for ANY strictly increasing keypoints (symbolic): monotone keypoint outputs give a monotone function,
+      # bounded keypoint outputs a bounded one (used for learned keypoints, C03)
+      n = cfg['nk']
+      ks = [P.var('k%d' % i) for i in range(n)]
+      ys = [P.var('y%d' % i) for i in range(n)]
+      x, x2 = P.var('x'), P.var('x2')
+      lo, hi = P.var('lo'), P.var('hi')
+      for i in range(n - 1):
+        c.assume(ks[i] < ks[i + 1], 'strictly increasing keypoints')
+      # hat weights as opaque quantities w_i(x) in [0, 1], non-decreasing in x (proved below from the definition)
+      ws = [E.pmin(E.pmax((x - ks[i]) * E.inv(ks[i + 1] - ks[i]), 0), 1) for i in range(n - 1)]
+      ws2 = [E.pmin(E.pmax((x2 - ks[i]) * E.inv(ks[i + 1] - ks[i]), 0), 1) for i in range(n - 1)]
+      from vt import lemmas as L_
+      for i in range(n - 1):
+        L_.inverse(ks[i + 1] - ks[i])
+        L_.nonneg_product(x2 - x, E.inv(ks[i + 1] - ks[i]))
+        cl.append(('have:weight-in-[0,1][%d]' % i, (ws[i] >= 0) & (ws[i] <= 1)))
+        cl.append(('have:weight-non-decreasing-in-x[%d]' % i, (x <= x2).implies(ws[i] <= ws2[i])))
+      f, f2 = hat_form(ks, ys, x), hat_form(ks, ys, x2)
+      d = cfg['direction']
+      mono_h = E.ball([(ys[i] <= ys[i + 1]) if d == 1 else (ys[i] >= ys[i + 1]) for i in range(n - 1)])
+      for i in range(n - 1):
+        L_.nonneg_product(ws2[i] - ws[i], (ys[i + 1] - ys[i]) * d)
+      cl.append(('monotone-for-any-ordered-keypoints', (mono_h & (x <= x2)).implies((f <= f2) if d == 1 else (f >= f2))))
+      if d == 1:
+        # telescoping: f = sum_i (w_{i-1} - w_i) y_i with w_{-1} = 1, w_{n-1} = 0 and w non-increasing in i
+        for i in range(n - 2):
+          cl.append(('have:weights-non-increasing-across-segments[%d]' % i, ws[i] >= ws[i + 1]))
+        inb = E.ball([(y >= lo) & (y <= hi) for y in ys])
+        coef = [1 - ws[0]] + [ws[i - 1] - ws[i] for i in range(1, n - 1)] + [ws[n - 2]]
+        for cf, y in zip(coef, ys):
+          L_.nonneg_product(cf, y - lo)
+          L_.nonneg_product(cf, hi - y)
+        cl.append(('bounded-for-any-ordered-keypoints', inb.implies((f >= lo) & (f <= hi))))
     return cl
 
 
@@ -558,6 +593,8 @@ def configs(tier, rng):
           for in_cols in sorted({1, units}):
             jobs.append(('lemma', dict(lemma='learned-call', nk=nk, kpset=kpset, units=units, in_cols=in_cols)))
     jobs.append(('lemma', dict(lemma='hat-form', nk=nk)))
+    for d in (1, -1):
+      jobs.append(('lemma', dict(lemma='hat-form-monotone', nk=nk, direction=d)))
   for nb in ((2, 3) if tier == 'quick' else (2, 3, 5)):
     for units in (1, 2):
       for split in ((False, True) if units > 1 else (False,)):
